@@ -74,6 +74,19 @@ chk("C20", "exploration",
     "Iterator monitor: controller scripts interleave iterator steps (own goroutine, may park) with add/remove/close/cancel; sequence oracle (only added ids, no duplicates, exact order absent removals, EOF after Close); a step that must return and has not is decided at quiescence; hook scenarios land Add/cancel/remove-then-add inside the tail-check-then-park window.",
     TB + DQ, "runtime monitoring: sequence oracle + goroutine census at quiescence + yield-point scripting", "DESIGN.md §5 C20")
 
+chk("C10", "fault_enumeration",
+    "Fault enumeration over the service lifecycle table ({absent, ok, error, panic}^4 x end mode x timing x callers = 4608 cells; every 7th cell in quick, all cells x 20 in thorough) with a stamped call log: phase counts and order, exactly one nil Start, Wait completeness and timing, Running() after Wait; hook cells finish the service inside Start's two windows.",
+    TB + DQ + " Absent Run: only ordering and termination (DESIGN 7e).",
+    "runtime monitoring: fault injection over an enumerated table + stamped call-log oracle + yield-point scripting", "DESIGN.md §5 C10")
+chk("C11", "exploration",
+    "Invocation-counter monitor for Orchestrator (services fresh / externally running / finished / being started concurrently), Group, WorkerPool / HandlerWorkerPool and the Cleanup service: started/ran exactly once, awaited (stamps), failures found by errors.Is; unmet 'gets started / runs' expectations decided at quiescence.",
+    TB + DQ + " Externally owned services end before the orchestrator is shut down (DESIGN 7f).",
+    "runtime monitoring: per-unit invocation counters and happens-before stamps + goroutine census at quiescence", "DESIGN.md §5 C11")
+chk("C13", "exploration",
+    "Go race detector over a method-pair matrix of every documented concurrency-safe type (676 pairs): 2-4 goroutines per pair on one shared instance; reports are parsed from the detector log, deduplicated, and count when both accesses are in the module (or in probe state that only a library lock protects). Thorough adds repetitions and a go1.26.8 build.",
+    "Trusted: the Go race detector (it reports only real unsynchronised access pairs among those executed). Decides only accesses the drivers produce; the static lock-set reading is not decided.",
+    "sanitizer: Go race detector (-race) under a concurrent method-pair driver", "DESIGN.md §5 C13")
+
 ALL = ["C%02d" % i for i in range(1, 21)]
 pending = "monitor for this property is not built yet in this revision of /verif (planned in DESIGN.md §5); nothing is claimed for it"
 manifest = dict(
